@@ -605,7 +605,8 @@ def _run(ctx):
                     d = float((got - target).abs().max() / target.abs().max())
                     d = max(d, float((got2 - target).abs().max() / target.abs().max()))
                     worst_attained = max(worst_attained, d)
-                    if d > 1e-8:
+                    # float64 least squares attains the values to ~eps*cond(Y Y^T); 1e-8 up to cond ~ 5e6, proportional beyond
+                    if d > max(1e-8, 2e-15 * cond):
                         oracle_fail.append(dict(oracle="with_peaks_at:values-not-attained", lmax=lmax, pa=pa, N=N, rel_error=d, cond=cond,
                                                 vectors=vec.tolist(), values=None if vals is None else vals.tolist()))
     ctx.notes["with_peaks_at_conditioning"] = cond_hist
